@@ -44,7 +44,7 @@ def gen_cases(ctx, n):
     cases.append(("poisson", [16.5], [0.75, 1e-5]))
     kinds = ["uniform", "exponential", "bernoulli", "bernoulli2", "rejection", "reciprocal",
              "invsquare", "radial", "isotropic", "box", "normal2", "poisson", "poisson",
-             "selector", "gamma"]
+             "selector", "gamma", "tsaiurban", "selector"]
     for i in range(n):
         k = kinds[i % len(kinds)]
         if k == "uniform":
@@ -92,10 +92,23 @@ def gen_cases(ctx, n):
             if sum(w) == 0:
                 w[r.randrange(n_w)] = 1.0
             tot = math.fsum(w)
-            cases.append((k, [tot] + w, gen_u(r, 1)))
+            if r.random() < 0.3 and n_w > 1:      # u aimed at a cumulative boundary (dyadic weights: exact)
+                w = [r.choice([0.0, 0.125, 0.25, 0.5]) for _ in range(n_w)]
+                if sum(w) == 0:
+                    w[0] = 0.5
+                tot = sum(w)
+                kcut = r.randrange(0, n_w + 1)
+                ub = min(sum(w[:kcut]) / tot, 1 - EPS)
+                cases.append((k, [tot] + w, [r.choice([ub, max(0.0, ub - EPS), min(1 - EPS, ub + EPS)])]))
+            else:
+                cases.append((k, [tot] + w, gen_u(r, 1)))
         elif k == "gamma":
-            al = r.choice([1.0, 0.5, logu(r, -2, 2), r.uniform(0.9, 1.1)])
+            al = r.choice([1.0, 0.5, 1 - EPS, 1 + 2 * EPS, logu(r, -2, 2), r.uniform(0.9, 1.1)])
             cases.append((k, [al, logu(r, -3, 3)], nz(gen_u(r, 60, extremes=False))))
+        elif k == "tsaiurban":
+            mass = r.choice([0.5109989461, 105.6583745])
+            en = r.choice([logu(r, -3, 4), 0.0, mass * logu(r, -6, 0)])
+            cases.append((k, [en, mass], nz(gen_u(r, 90))))
     return cases
 
 
@@ -137,13 +150,278 @@ def support_violation(k, p, vals):
         return "selector index out of range"
     if k == "gamma" and not (x >= 0 and math.isfinite(x)):
         return "gamma sample not in (0, inf)"
+    if k == "tsaiurban" and not (-1 <= x <= 1):
+        return "Tsai-Urban cos(theta) outside [-1, 1]"
+    if k == "normal2" and not all(math.isfinite(v) for v in vals):
+        return "normal sample not finite for u2 > 0"
     return None
+
+
+
+# ---------------------------------------------------------------------------
+# part 2: energy-loss fluctuation distributions (second harness, links libceleritas)
+ME = 0.5109989461
+MMU = 105.6583745
+
+
+def gen_eloss_cases(ctx, n):
+    r = ctx.rng
+    cases = []
+    for i in range(n):
+        c = i % 6
+        if c == 0:
+            mean = logu(r, -4, 1)
+            sd = mean * r.choice([logu(r, -2, 0.5), 0.25, 0.5, 2.0])
+            cases.append(("gauss", [mean, sd], nz(gen_u(r, 80, extremes=False))))
+        elif c == 1:
+            mean = logu(r, -4, 1)
+            var = mean * mean * r.choice([logu(r, -2, 1.5), 1.0, 0.25])
+            cases.append(("gammad", [mean, var], nz(gen_u(r, 80, extremes=False))))
+        else:
+            pid = r.choice([0, 1, 1])
+            energy = logu(r, -3, 2) if pid == 0 else logu(r, -2, 4)
+            mean_loss = r.choice([logu(r, -6, 0), energy * logu(r, -4, -0.5), 1e-5 * (1 + r.choice([-1, 1]) * logu(r, -12, -1))])
+            step = logu(r, -6, 1)
+            cut = r.choice([1e-3, logu(r, -5.5, 0)])
+            cases.append(("eloss", [pid, energy, mean_loss, step, cut], nz(gen_u(r, 400, extremes=False))))
+    return cases
+
+
+def eloss_line(c):
+    k, p, u = c
+    if k == "eloss":
+        return "eloss %d %s %d %s" % (p[0], " ".join(float(x).hex() for x in p[1:]), len(u), " ".join(float(x).hex() for x in u))
+    return "%s %s %d %s" % (k, " ".join(float(x).hex() for x in p), len(u), " ".join(float(x).hex() for x in u))
+
+
+def run_eloss(ctx, proofs_ok):
+    HERE_ = os.path.dirname(os.path.abspath(__file__))
+    ctx.build_libs(["celeritas"])
+    exe = ctx.compile_harness([os.path.join(HERE_, "harness", "eloss.cc")], "eloss",
+                              libs=["celeritas", "orange", "geocel", "corecel"])
+    n = 180 if ctx.tier == "quick" else 4000
+    cases = gen_eloss_cases(ctx, n)
+    rc, out = ctx.run_harness(exe, input="".join(eloss_line(c) + "\n" for c in cases), timeout=900)
+    lines = [l for l in out.strip().splitlines() if l.startswith(("ok", "exhausted", "unknown"))]
+    if rc != 0 or len(lines) != len(cases):
+        raise vlib.BuildError("eloss harness failed rc=%d" % rc, out[-2000:])
+    fx = lambda t: float.fromhex(t) if t not in ("nan", "inf", "-inf") else float(t)
+    exprs, meta = [], []
+    for (k, p, u), line in zip(cases, lines):
+        tok = line.split()
+        if k in ("gauss", "gammad"):
+            impl = None if tok[0] == "exhausted" else ([fx(tok[2])] + ([fx(tok[3])] if k == "gauss" else []), int(tok[1]))
+            exprs.append(("run_elgauss %s %s %s" if k == "gauss" else "run_elgamma %s %s %s") % (hexf(p[0]), hexf(p[1]), fl(u)))
+            meta.append((k, p, u, impl, None))
+            continue
+        model, consumed, loss = int(tok[1]), int(tok[2]), fx(tok[3])
+        f = [fx(t) for t in tok[4:]]
+        mean, max_e, beta_sq, bohr, tmb, gam, mass = f[:7]
+        pid, energy, mean_loss, step, cut = p
+        if pid == 0:
+            mt, mr = 0.5 * energy, 1.0
+        else:
+            mr = ME / mass
+            tmb_py = tmb if model != 0 else 2 * ME * (1 - 1 / (gam * gam)) * gam * gam
+            mt = tmb_py / (1 + mr * (2 * gam + mr))
+        me_sel = max_e if model != 0 else min(cut, mt)
+        sel = "run_elmodel %s %s %s %s %s" % (hexf(mean_loss), hexf(me_sel), hexf(mt), hexf(mr), hexf(bohr))
+        if model == 1:
+            smp = "run_elgamma %s %s %s" % (hexf(mean), hexf(bohr), fl(u))
+        elif model == 2:
+            smp = "run_elgauss1 %s %s %s" % (hexf(mean), hexf(bohr), fl(u))
+        elif model == 3:
+            smp = "run_elurban %s %s" % (" ".join(hexf(x) for x in f[7:14]), fl(u))
+        else:
+            smp = "Some ([%s], 0%%nat)" % hexf(mean_loss)
+        exprs.append("(%s, %s)" % (sel, smp))
+        impl = None if consumed < 0 else ([loss], consumed)
+        meta.append((k, p, u, impl, model))
+    mvals = ctx.coq_eval("eloss", PRE, exprs, chunk=max(20, len(exprs) // 16 + 1), timeout=1200)
+    ndis = 0
+    names = {0: "none", 1: "gamma", 2: "gaussian", 3: "urban"}
+    for (k, p, u, impl, model), mv in zip(meta, mvals):
+        if k == "eloss":
+            msel, mv = mv
+            ctx.count("eloss-model:" + names[model])
+            if msel != model:
+                tight = abs(p[2] - 1e-5) < 1e-14
+                if tight:
+                    ctx.count("knife-edge-accepted")
+                else:
+                    ndis += 1
+                    ctx.violation("correspondence", "EnergyLossHelper picks model %s, the model of it %s" % (names[model], names.get(msel)),
+                                  {"params": p, "impl_model": model, "coq_model": msel}, no_input=True)
+                    continue
+        ctx.count("kind:" + k)
+        mdl = None if mv is None else (list(mv[0]), mv[1])
+        ctx.case((k, p, u[:4]), nontrivial=impl is not None)
+        ctx.sample({"kind": k, "params": p, "impl": impl, "model": mdl}, limit=10)
+        if impl is None and mdl is None:
+            ctx.count("both-exhausted")
+            continue
+        if impl is not None:   # support oracle
+            x = impl[0][0]
+            bad = None
+            if not (math.isfinite(x) and x >= 0):
+                bad = "energy loss negative or not finite: %r" % x
+            elif k == "gauss" and not all(0 < v <= 2 * p[0] for v in impl[0]):
+                bad = "Gaussian energy loss outside (0, 2 mean]"
+            # (gamma: > 0 in exact arithmetic; in binary64 u^(1/k) underflows to 0 for k = mean^2/var << 1,
+            #  so 0 is accepted -- see NOTES.md)
+            elif model == 2 and not (0 < x <= 2 * p[2]):
+                bad = "Gaussian energy loss outside (0, 2 mean]"
+            if bad:
+                ctx.violation("support", bad, {"kind": k, "params": p, "stream": u[:impl[1]], "impl": impl, "model": mdl})
+                continue
+        if not (impl is not None and mdl is not None and impl[1] == mdl[1] and close(impl[0], mdl[0], rtol=1e-9, atol=1e-300)):
+            ndis += 1
+            if ndis <= 5:
+                ctx.violation("correspondence", "model and implementation differ for %s%s" % (k, "" if model is None else ":" + names[model]),
+                              {"kind": k, "params": p, "stream": u[:24], "impl": impl, "model": mdl}, no_input=True)
+    return len(cases)
+
+
+# ---------------------------------------------------------------------------
+# SUPPORTING TEST (not a proof, thorough tier only): empirical law of the real
+# samplers vs the analytic law, Kolmogorov-Smirnov / chi-square at ~1e-6 level
+def gammainc_p(a, x):
+    """regularised lower incomplete gamma P(a, x) (series / continued fraction)"""
+    if x <= 0:
+        return 0.0
+    gln = math.lgamma(a)
+    if x < a + 1:
+        ap, s, d = a, 1 / a, 1 / a
+        for _ in range(2000):
+            ap += 1
+            d *= x / ap
+            s += d
+            if abs(d) < abs(s) * 1e-16:
+                break
+        return s * math.exp(-x + a * math.log(x) - gln)
+    b = x + 1 - a
+    c = 1e300
+    d = 1 / b
+    h = d
+    for i in range(1, 2000):
+        an = -i * (i - a)
+        b += 2
+        d = an * d + b
+        d = 1e-300 if abs(d) < 1e-300 else d
+        c = b + an / c
+        c = 1e-300 if abs(c) < 1e-300 else c
+        d = 1 / d
+        de = d * c
+        h *= de
+        if abs(de - 1) < 1e-16:
+            break
+    return 1 - math.exp(-x + a * math.log(x) - gln) * h
+
+
+def ks_stat(xs, cdf):
+    xs = sorted(xs)
+    n = len(xs)
+    d = 0.0
+    for i, x in enumerate(xs):
+        f = cdf(x)
+        d = max(d, abs(f - i / n), abs((i + 1) / n - f))
+    return d * math.sqrt(n)
+
+
+def chi2_stat(counts, probs, n):
+    """pooled chi-square; returns (statistic, dof)"""
+    obs, exp = [], []
+    o = e = 0.0
+    for c, p in zip(counts, probs):
+        o += c
+        e += p * n
+        if e >= 10:
+            obs.append(o); exp.append(e); o = e = 0.0
+    if e > 0 and exp:
+        obs[-1] += o; exp[-1] += e
+    st = sum((a - b) ** 2 / b for a, b in zip(obs, exp))
+    return st, max(1, len(exp) - 1)
+
+
+def run_stats(ctx, exe):
+    r = ctx.rng
+    n = 20000
+    KS_CRIT = 2.8        # P(sqrt(n) D > 2.8) ~ 3e-7
+    tests = []
+    lam = r.uniform(0.5, 5)
+    tests.append(("exponential", [lam], 1, lambda x: 1 - math.exp(-lam * x)))
+    mu, sg = r.uniform(-5, 5), r.uniform(0.5, 3)
+    tests.append(("normal2", [mu, sg], 2, lambda x: 0.5 * (1 + math.erf((x - mu) / (sg * math.sqrt(2))))))
+    R_ = r.uniform(0.5, 10)
+    tests.append(("radial", [R_], 1, lambda x: (x / R_) ** 3))
+    a, b = 0.5, r.uniform(2, 100)
+    tests.append(("reciprocal", [a, b], 1, lambda x: math.log(x / a) / math.log(b / a)))
+    tests.append(("invsquare", [a, b], 1, lambda x: (1 - a / x) * b / (b - a)))
+    for al in (r.uniform(0.2, 0.9), r.uniform(1.5, 8)):
+        be = r.uniform(0.5, 2)
+        tests.append(("gamma", [al, be], 8, (lambda al, be: lambda x: gammainc_p(al, x / be))(al, be)))
+    en, mass = r.uniform(1, 50), ME
+    umax = 2 * (1 + en / mass)
+    g2 = lambda t: 1 - (1 + t) * math.exp(-t)
+    fu = lambda u_: 0.25 * g2(u_ / 1.6) + 0.75 * g2(3 * u_ / 1.6)
+    # cos = 1 - 2 (u/umax)^2 is decreasing in u:  P(cos <= x) = 1 - F(u(x)) / F(umax)
+    tests.append(("tsaiurban", [en, mass], 8,
+                  lambda x: 1 - fu(umax * math.sqrt(max(0.0, (1 - x) / 2))) / fu(umax)))
+    disc = []
+    for lamp in (r.uniform(0.5, 12), r.uniform(30, 200)):
+        disc.append(("poisson", [lamp], 20 if lamp <= 16 else 2))
+    w = [r.random() for _ in range(6)]
+    disc.append(("selector", [math.fsum(w)] + w, 1))
+    inp = ""
+    for k, p, per, _ in tests:
+        u = [max(r.random(), 2.0 ** -60) for _ in range(per * n + 64)]
+        inp += "bulk:%s %d %s %d %s\n" % (k, len(p) + 1, " ".join(float(x).hex() for x in p + [n]), len(u), " ".join(float(x).hex() for x in u))
+    for k, p, per in disc:
+        u = [max(r.random(), 2.0 ** -60) for _ in range(int(per * n * 1.3) + 64)]
+        inp += "bulk:%s %d %s %d %s\n" % (k, len(p) + 1, " ".join(float(x).hex() for x in p + [n]), len(u), " ".join(float(x).hex() for x in u))
+    rc, out = ctx.run_harness(exe, input=inp, timeout=900)
+    lines = out.strip().splitlines()
+    if rc != 0 or len(lines) != len(tests) + len(disc):
+        raise vlib.BuildError("sampler harness failed in the statistical test rc=%d" % rc, out[-1000:])
+    report = []
+    for (k, p, per, cdf), line in zip(tests, lines):
+        xs = [float.fromhex(t) for t in line.split()[3:]]
+        st = ks_stat(xs, cdf)
+        report.append({"test": "KS", "sampler": k, "params": p, "n": len(xs), "sqrt_n_D": round(st, 3), "critical": KS_CRIT})
+        if len(xs) < n // 2 or st > KS_CRIT:
+            ctx.violation("statistical-test", "SUPPORTING TEST: empirical law of %s deviates from the analytic law (sqrt(n) D = %.2f > %.1f)" % (k, st, KS_CRIT),
+                          {"sampler": k, "params": p, "n": len(xs), "statistic": st, "seed": ctx.seed})
+    for (k, p, per), line in zip(disc, lines[len(tests):]):
+        xs = [int(float.fromhex(t)) for t in line.split()[3:]]
+        nn = len(xs)
+        if k == "poisson":
+            lamp = p[0]
+            kmax = int(lamp + 12 * math.sqrt(lamp) + 20)
+            probs = [math.exp(-lamp + i * math.log(lamp) - math.lgamma(i + 1)) for i in range(kmax)]
+            if lamp > 16:   # documented Gaussian approximation: compare with the rounded normal it implements
+                cdfn = lambda t: 0.5 * (1 + math.erf((t - lamp) / math.sqrt(2 * lamp)))
+                probs = [cdfn(i + 0.5) - (cdfn(i - 0.5) if i > 0 else 0.0) for i in range(kmax)]
+        else:
+            tot = p[0]
+            probs = [x / tot for x in p[1:]]
+            kmax = len(probs)
+        counts = [0] * kmax
+        for x in xs:
+            counts[min(max(x, 0), kmax - 1)] += 1
+        st, dof = chi2_stat(counts, probs, nn)
+        crit = dof + 6.5 * math.sqrt(2 * dof) + 30
+        report.append({"test": "chi2", "sampler": k, "params": p[:3], "n": nn, "chi2": round(st, 2), "dof": dof, "critical": round(crit, 1)})
+        if nn < n // 2 or st > crit:
+            ctx.violation("statistical-test", "SUPPORTING TEST: empirical law of %s deviates from the analytic law (chi2 = %.1f, dof %d)" % (k, st, dof),
+                          {"sampler": k, "params": p, "n": nn, "statistic": st, "dof": dof, "seed": ctx.seed})
+    ctx.coverage["supporting_statistical_test (a TEST, not a proof; thorough tier)"] = report
 
 
 def run(ctx):
     n = 600 if ctx.tier == "quick" else 12000
     ctx.trusted += [
-        "hand-written model coq/C15/Samplers.v tied by replay-RNG differential (props/C15/run.py, harness/samplers.cc)",
+        "hand-written models coq/C15/Samplers.v, coq/C15/Eloss.v tied by replay-RNG differential (props/C15/run.py, harness/samplers.cc, harness/eloss.cc)",
+        "EnergyLossUrbanDistribution's constructor (cross sections from material data) is not modelled: its state is read from the object; EnergyLossHelper's kinematic inputs (gamma, beta^2, Bohr variance) are taken from the implementation",
         "float instance of Num (Base/NumF.v, Base/FloatFun.v): own exp/log/sin/cos/cbrt; compared with libm under rtol 1e-9",
         "gap R vs binary64 rounding (DESIGN.md 3.1)",
     ]
@@ -195,7 +473,7 @@ def run(ctx):
             continue
         agree = (impl is not None and model is not None and impl[1] == model[1]
                  and close(impl[0], model[0], rtol=1e-9, atol=1e-300))
-        if not agree and impl and model and impl[1] == model[1] and k in ("poisson", "selector", "bernoulli", "bernoulli2", "rejection", "gamma"):
+        if not agree and impl and model and impl[1] == model[1] and k in ("poisson", "selector", "bernoulli", "bernoulli2", "rejection", "gamma", "tsaiurban"):
             # knife-edge: a discrete outcome decided by a comparison within rounding error
             agree = knife_edge(k, p, u, impl, model)
             if agree:
@@ -209,11 +487,16 @@ def run(ctx):
                           no_input=True)
             if ndis > 5:
                 break
+    n_eloss = run_eloss(ctx, proofs_ok)
+    if ctx.tier == "thorough":
+        run_stats(ctx, exe)
+    else:
+        ctx.coverage["supporting_statistical_test (a TEST, not a proof; thorough tier)"] = "not run in the quick tier"
     if not proofs_ok:
         ctx.violation("proof-broken", "Properties_C15.v no longer checks", ctx.broken_proof, no_input=True)
     ctx.coverage["rule"] = ("cases = (sampler kind, parameters, uniform stream) drawn from one PRNG seeded by VERIF_SEED; "
                             "non-trivial = the implementation returned a sample (stream not exhausted); distinct by (kind, params, stream head)")
-    ctx.coverage["traces_validated_against_impl"] = len(cases)
+    ctx.coverage["traces_validated_against_impl"] = len(cases) + n_eloss
 
 
 def knife_edge(k, p, u, impl, model):
